@@ -314,6 +314,14 @@ def gen_props(seed, tier):
             elif r < 0.45:
                 b.ops.append({"op": "takecol", "t": 1, "n": rng.randint(0, ncols)})
                 handles += 1
+            elif r < 0.5 and any(x["n"] > 0 for x in b.rows) and any(not x["sep"] for x in b.rows):
+                # a by-value copy of a cell (with its properties) added to some row
+                cells = [(j + 1, c) for j, x in enumerate(b.rows) for c in range(1, x["n"] + 1)]
+                a, c = rng.choice(cells)
+                tgt = rng.choice([j + 1 for j, x in enumerate(b.rows) if not x["sep"]])
+                b.ops.append({"op": "rowaddcell", "r": tgt, "from": {"kind": "cell", "r": a, "c": c}})
+                b.rows[tgt - 1]["n"] += 1
+                ncols = max([ncols] + [x["n"] for x in b.rows if x["tbl"]])
             else:
                 owners = [{"kind": "table", "t": 1}] + [{"kind": "column", "t": 1, "n": c} for c in range(0, ncols + 1)]
                 owners += [{"kind": "row", "r": j + 1} for j in range(len(b.rows))]
